@@ -7,6 +7,12 @@ from vp.world import BINDING_HTTP_POST as POST, BINDING_HTTP_REDIRECT as REDIR, 
 TMP = [None]
 _c = {}
 X, Y = world.SP_X, world.SP_Y
+PAOS = 'urn:oasis:names:tc:SAML:2.0:bindings:PAOS'
+SIMPLESIGN = 'urn:oasis:names:tc:SAML:2.0:bindings:HTTP-POST-SimpleSign'      # a binding the library has no constant for
+# a third SP whose identifier is not ASCII; its canonically equivalent (NFD) spelling is a different identifier
+Z = 'https://sp.example.org/caf\u00e9'
+Z_NFD = 'https://sp.example.org/cafe\u0301'
+Z_ACS = [('https://spz.example/acs/post', POST, 0)]
 UX = {'P': 'https://spx.example/acs/post', 'R': 'https://spx.example/acs/redirect', 'A': 'https://spx.example/acs/artifact',
       'P2': 'https://spx.example/acs/post2'}
 UY = {'P': 'https://spy.example/acs/post', 'R': 'https://spy.example/acs/redirect'}
@@ -27,6 +33,9 @@ LAYOUTS = {
     # identifiers with a 200 fallback document: the descriptor of X
     'three-bindings@mdq-fallback': [(UX['P'], POST, 0), (UX['R'], REDIR, 1), (UX['A'], ART, 2)],
     'three-bindings@mdq-strict': [(UX['P'], POST, 0), (UX['R'], REDIR, 1), (UX['A'], ART, 2)],
+    # endpoints for the reverse-SOAP binding and for a binding unknown to the library next to a POST one
+    'post+simplesign+paos': [(UX['P'], POST, 0), ('https://spx.example/acs/simplesign', SIMPLESIGN, 1), ('https://spx.example/acs/paos', PAOS, 2)],
+    'simplesign+artifact': [('https://spx.example/acs/simplesign', SIMPLESIGN, 0), (UX['A'], ART, 1)],
 }
 Y_ACS = [(UY['P'], POST, 0), (UY['R'], REDIR, 1)]
 
@@ -41,6 +50,10 @@ def md_y():
     return world.sp_md(Y, keys=(('spY', 'signing'),), acs=Y_ACS, slo=SLO_Y)
 
 
+def md_z():
+    return world.sp_md(Z, keys=(('spY', 'signing'),), acs=Z_ACS, slo=())
+
+
 class _MdqResp(object):
     def __init__(self, code, body=''):
         self.status_code = code
@@ -53,7 +66,7 @@ def mdq_get(layout):
     service's fallback document, X's descriptor, with status 200."""
     import hashlib
     docs = {}
-    for eid, doc in ((X, md_x(LAYOUTS[layout])), (Y, md_y())):
+    for eid, doc in ((X, md_x(LAYOUTS[layout])), (Y, md_y()), (Z, md_z())):
         docs['{sha1}' + hashlib.sha1(eid.encode('utf-8')).hexdigest()] = doc
 
     def get(url, **kw):
@@ -78,7 +91,7 @@ def server(layout):
             c.load(conf)
             _c[layout] = Server(config=c)
         else:
-            _c[layout] = world.make_idp(TMP[0], [md_x(LAYOUTS[layout], ars=True if layout.endswith('+signs-requests') else None), md_y()])
+            _c[layout] = world.make_idp(TMP[0], [md_x(LAYOUTS[layout], ars=True if layout.endswith('+signs-requests') else None), md_y(), md_z()])
     if '@mdq' in layout:
         from saml2_tophat import mdstore
 
@@ -145,6 +158,15 @@ def cells(thorough):
                 out.append(('LogoutRequest', layout, None, None, None, iss, bnd))
                 out.append(('ManageNameIDRequest', layout, None, None, None, iss, bnd))
         out.append(('AuthnRequest', layout, None, None, None, 'absent', None))
+        # the registered non-ASCII identifier and its decomposed twin (not registered)
+        for iss, url, pb in itertools.product(('Z', 'Z-nfd'), (None, Z_ACS[0][0], UX['P'], 'https://attacker.example/acs'), (None, POST)):
+            out.append(('AuthnRequest', layout, url, None, pb, iss, None))
+        if any(t[1] == PAOS for t in LAYOUTS[layout]):
+            # the ECP front end: the caller answers over PAOS only / the request asks for PAOS
+            for url, iss in itertools.product(url_variants(layout), ('X', 'Y', 'unknown')):
+                out.append(('AuthnRequest', layout, url, None, None, iss, [PAOS]))
+                out.append(('AuthnRequest', layout, url, None, PAOS, iss, None))
+                out.append(('AuthnRequest', layout, url, None, PAOS, iss, [PAOS]))
         # non-initial state: X's legitimate request first, then Y / an unknown issuer supplying X's URL
         for iss in ('Y', 'unknown'):
             out.append(('AuthnRequest@after-X', layout, LAYOUTS[layout][0][0], None, None, iss, None))
@@ -169,6 +191,8 @@ def registered(kind, layout, iss):
             return [(t[0], t[1]) for t in LAYOUTS[layout]]
         if iss == 'Y':
             return [(t[0], t[1]) for t in Y_ACS]
+        if iss == 'Z':
+            return [(t[0], t[1]) for t in Z_ACS]
         return []
     if kind == 'LogoutRequest':
         return {'X': SLO_X, 'Y': SLO_Y}.get(iss, [])
@@ -177,7 +201,7 @@ def registered(kind, layout, iss):
     return []
 
 
-ISS = {'X': X, 'Y': Y, 'unknown': 'urn:vp:nobody', 'absent': None}
+ISS = {'X': X, 'Y': Y, 'unknown': 'urn:vp:nobody', 'absent': None, 'Z': Z, 'Z-nfd': Z_NFD}
 
 
 def build_msg(kind, url, idx, pb, iss):
@@ -221,13 +245,15 @@ def judge(cell, r):
     dest, binding = r['destination'], r['binding']
     if bnd == [SOAP] and dest == '':
         return None             # answered on the back channel: no destination is derived
-    if iss in ('unknown', 'absent'):
+    if iss in ('unknown', 'absent', 'Z-nfd'):
         if dest:
             return 'destination-for-requester-absent-from-metadata'
         return None
     regs = registered(kind, layout, iss)
     if '@mdq' in layout and iss == 'Y':
         regs = [(t[0], t[1]) for t in Y_ACS] if kind.startswith('AuthnRequest') else regs
+    if binding == POST and (dest, SIMPLESIGN) in regs and (dest, POST) not in regs:
+        return 'destination-registered-for-another-binding'
     if (dest, binding) not in regs:
         if url is not None and dest == url and url not in [u for u, _b in regs]:
             return 'answered-to-supplied-unregistered-address'
